@@ -109,14 +109,6 @@ theorem plan_ne_nil (lc : Lifecycle) (st : St) (todo : List Id) (h : todo ≠ []
 
 /-! ### one open pass, record by record -/
 
-/-- the handler is due at `now`: no record yet, or an unfinished record that is not sleeping -/
-def awakeP (P : Store) (now : Tick) (i : Id) : Bool :=
-  match P i with | some r => r.awakened now | none => true
-
-/-- the handler still has to reach a final outcome -/
-def unfin (P : Store) (i : Id) : Bool :=
-  match P i with | some r => !r.finished | none => true
-
 def todoOf (cfg : Cfg) (P : Store) (now : Tick) : List Id :=
   cfg.selected.filter (fun j => match preState cfg P now j with | some h => h.r.awakened now | none => false)
 
@@ -251,15 +243,6 @@ theorem outcomeFor_final {cfg : Cfg} {exec : Id → Nat → Outcome} (hfin : ∀
   split
   · rfl
   · exact hfin _ _
-
-/-- keepalive rounds still needed before the handler's delay can be slept in one piece -/
-def slack (cap : Tick) (P : Store) (now : Tick) (i : Id) : Nat :=
-  match P i with
-  | some r => if r.finished then 0 else
-      match r.delayed with
-      | some d => (d - now).toNat / cap.toNat
-      | none => 0
-  | none => 0
 
 section OpenPass
 variable (cfg : Cfg) (P : Store) (now now1 : Tick) (exec : Id → Nat → Outcome)
